@@ -115,6 +115,14 @@ func (V *Verifier) runProperty(spec *propSpec) *checkResult {
 		}
 		funcs = append([]string(nil), funcs...)
 		for _, k := range V.reachableFromUntrusted(spec.SafetyClosure...) {
+			if os.Getenv("BXV_DEBUG_CLOSURE") != "" {
+				fmt.Fprintf(os.Stderr, "closure %s have=%v con=%v asvalue=%v shape=%v\n", k, have[k], V.CS.ByKey[k] != nil, V.usedAsValue[k], V.inlinableShape(V.P.Funcs[k], k))
+			}
+			if !have[k] && V.CS.ByKey[k] == nil && !V.usedAsValue[k] && V.inlinableShape(V.P.Funcs[k], k) {
+				// no contract, only ever called directly, and of inlinable shape: its
+				// run-time checks are obligations of its callers (inl.<callee>.<check>)
+				continue
+			}
 			if !have[k] {
 				have[k] = true
 				funcs = append(funcs, k)
